@@ -87,6 +87,18 @@ Eq(t, u) ==
     [] t.k = "none" -> u.k = "none"
     [] OTHER -> FALSE
 
+(* Type-exact equality of values: concrete types must agree (1 # 1.0,       *)
+(* True # 1), only the order of dictionary keys is irrelevant (it is not     *)
+(* observable through == in Python and is not preserved by the cache file,   *)
+(* which is written with sorted keys).                                        *)
+RECURSIVE TEq(_, _)
+TEq(t, u) ==
+  IF t.k # u.k THEN FALSE
+  ELSE CASE IsSeqT(t) -> Len(t.xs) = Len(u.xs) /\ \A i \in DOMAIN t.xs : TEq(t.xs[i], u.xs[i])
+         [] t.k = "dict" -> Len(t.kv) = Len(u.kv) /\ KeysOf(t) = KeysOf(u)
+                            /\ \A i \in DOMAIN t.kv : TEq(t.kv[i][2], u.kv[Lookup(u, t.kv[i][1])][2])
+         [] OTHER -> t = u
+
 (* An abstract canonical (hashable) form: Eq(t,u) <=> Canon(t) = Canon(u) on *)
 (* sanitised values.                                                           *)
 RECURSIVE Canon(_)
